@@ -61,6 +61,7 @@ def fbits(x):
     return struct.unpack('<Q', struct.pack('<d', float(x)))[0]
 
 
+_CMP = {ast.GtE: '>=', ast.Gt: '>', ast.LtE: '<=', ast.Lt: '<', ast.Eq: '==', ast.NotEq: '!='}
 _FMT = re.compile(r'^([<>=!@]?)(\d*)([A-Za-z])$')
 _CODES = {'H': '.u16', 'I': '.u32', 'f': '.f32', 's': '.str', 'x': '.pad', 'c': '.chr', 'B': '.u8'}
 
@@ -531,18 +532,20 @@ def generate(repo):
         if len(tests) != 1:
             raise Untranslatable('no single phase[...] = nan statement')
         cond = tests[0].targets[0].slice
-        if not (isinstance(cond, ast.Compare) and len(cond.ops) == 1 and isinstance(cond.ops[0], ast.GtE)
+        if not (isinstance(cond, ast.Compare) and len(cond.ops) == 1 and type(cond.ops[0]) in _CMP
                 and ast.unparse(cond.left) == 'phase' and ast.unparse(cond.comparators[0]) == 'ZYGO_INVALID_PHASE'):
             raise Untranslatable(f'invalid test {ast.unparse(cond)}')
+        invop = _CMP[type(cond.ops[0])]
         if tests[0].lineno > augs[0].lineno:
             raise Untranslatable('invalid samples are tested after scaling')
         kl = ', '.join(f'({lean_str(a)}, {lean_str(b)})' for a, b in keys.items())
         return (f'def zygoReadValue (n W S O R : Rat) : Rat := (n * {body})\n'
-                f'def zygoReadScaleKeys : List (String × String) := [{kl}]')
+                f'def zygoReadScaleKeys : List (String × String) := [{kl}]\n'
+                f'def zygoReaderInvalidTest : String := "{invop}"')
     g.item('zygo.read_value', 'prysm/io.py:read_zygo_dat', None, zr_value,
            f'def zygoReadValue (n W S O R : Rat) : Rat := {M}.zygoReadValue n W S O R\n'
            'def zygoReadScaleKeys : List (String × String) := [("W", "wavelength"), ("S", "scale_factor"), '
-           '("O", "obliquity_factor"), ("res", "phase_res")]')
+           '("O", "obliquity_factor"), ("res", "phase_res")]\ndef zygoReaderInvalidTest : String := ">="')
 
     # ---- truncation repair
     def ztrunc():
@@ -616,17 +619,20 @@ def generate(repo):
                 raise Untranslatable(f'{nm} is not read from one GRD token')
             mm = re.fullmatch(r'int\(params\[i \+ (\d)\]\)', ast.unparse(vs[0]))
             tokidx[nm] = int(mm.group(1))
-        mask = ast.unparse(find_assign(r, 'mask'))
-        if mask != 'a == nda':
-            raise Untranslatable(f'reader mask is {mask}')
+        mask = find_assign(r, 'mask')
+        if not (isinstance(mask, ast.Compare) and len(mask.ops) == 1 and type(mask.ops[0]) in _CMP
+                and ast.unparse(mask.left) == 'a' and ast.unparse(mask.comparators[0]) == 'nda'):
+            raise Untranslatable(f'reader mask is {ast.unparse(mask)}')
+        maskop = _CMP[type(mask.ops[0])]
         return (f'def cvGrdWriteAxes : Nat × Nat := ({ax[a]}, {ax[b]})\n'
                 f'def cvGrdReadToks : Nat × Nat := ({tokidx[dims[0]]}, {tokidx[dims[1]]})\n'
                 f'def cvHeaderWvl : Rat := ({fr.numerator} : Rat) / {fr.denominator}\n'
                 f'def cvHeaderNDA : Int := {nda}\n'
-                f'def cvWriterNDA : Int := {wn}')
+                f'def cvWriterNDA : Int := {wn}\n'
+                f'def cvReaderMaskTest : String := "{maskop}"')
     g.item('codev.header', 'prysm/io.py:write_codev_gridint+read_codev_gridint', lambda: get_def(io, 'write_codev_gridint'), cv_grd,
            'def cvGrdWriteAxes : Nat × Nat := (1, 0)\ndef cvGrdReadToks : Nat × Nat := (2, 1)\n'
-           f'def cvHeaderWvl : Rat := 1\ndef cvHeaderNDA : Int := {M}.cvNDA\ndef cvWriterNDA : Int := {M}.cvNDA')
+           f'def cvHeaderWvl : Rat := 1\ndef cvHeaderNDA : Int := {M}.cvNDA\ndef cvWriterNDA : Int := {M}.cvNDA\ndef cvReaderMaskTest : String := "=="')
 
     def cv_flips():
         w = get_def(io, 'write_codev_gridint')
@@ -738,8 +744,10 @@ def generate(repo):
         wvr = Tr({'wavelength': 'w'}, 'rat').expr(ast.BinOp(left=ast.Name(id='wavelength', ctx=ast.Load()), op=ast.Mult(), right=augs[0].value))
         sv = get_def(ifg, 'Interferogram.save_zygo_dat')
         (wc,) = find_calls(sv, 'write_zygo_dat')
-        ok = (ast.unparse(call_arg(wc, 1, 'phase')) == 'self.data' and ast.unparse(call_arg(wc, 2, 'dx')) == 'self.dx'
-              and ast.unparse(call_arg(wc, 3, 'wavelength')) == 'self.wavelength')
+        def u(x):
+            return None if x is None else ast.unparse(x)
+        ok = (u(call_arg(wc, 1, 'phase')) == 'self.data' and u(call_arg(wc, 2, 'dx')) == 'self.dx'
+              and u(call_arg(wc, 3, 'wavelength')) == 'self.wavelength')
         return (f'def zygoDxWrite (dx : Rat) : Rat := {dxw}\n'
                 f'def zygoWvlWrite (wvl : Rat) : Rat := {wvw}\n'
                 f'def ifgDxRead (res : Rat) : Rat := {dxr}\n'
